@@ -76,6 +76,9 @@ impl TlsClientHelloReader {
                 "First byte is not TLS Handshake (0x16), got 0x{:02x}. Might be continuation data.",
                 content_type
             );
+            // Nothing can ever be parsed from a buffer that does not start with a handshake
+            // record: do not keep (and keep growing) it for the lifetime of the flow.
+            self.buffer.clear();
             return Ok(None);
         }
 
